@@ -13,6 +13,8 @@ mod codec;
 mod c18;
 mod c03;
 mod c14;
+mod c11;
+mod c12;
 
 #[global_allocator]
 static GLOBAL: codec::Counting = codec::Counting;
@@ -28,6 +30,7 @@ fn main() {
     let mut seed: u64 = 1;
     let mut out: Option<String> = None;
     let mut replay: Option<String> = None;
+    let mut range: Option<(u64, u64)> = None;
     let mut i = 2;
     while i < args.len() {
         match args[i].as_str() {
@@ -35,6 +38,7 @@ fn main() {
             "--seed" => { seed = args[i + 1].parse().unwrap_or(1); i += 1 }
             "--out" => { out = Some(args[i + 1].clone()); i += 1 }
             "--replay" => { replay = Some(args[i + 1].clone()); i += 1 }
+            "--range" => { range = Some((args[i + 1].parse().unwrap_or(0), args[i + 2].parse().unwrap_or(0))); i += 2 }
             _ => {}
         }
         i += 1;
@@ -44,6 +48,12 @@ fn main() {
     let workers: usize = std::env::var("YV_WORKERS").ok().and_then(|s| s.parse().ok()).unwrap_or(16);
     let t0 = Instant::now();
     let _ = &replay;
+    if let Some((lo, hi)) = range {
+        // child of report::isolated: one thread, a slice of the cases, full report back to the parent
+        let rep = match prop.as_str() { "C12" => c12::run_range(&tier, seed, lo, hi), _ => { eprintln!("--range unsupported for {}", prop); std::process::exit(2); } };
+        std::fs::write(out.expect("--out"), serde_json::to_string(&rep.to_json_full()).unwrap()).unwrap();
+        return;
+    }
     let rep = match prop.as_str() {
         "C16" => c16::run(&tier, seed, workers),
         "C05" => { let mut r = c05::run(&tier, seed, workers); r.merge(c01::run("C05", &tier, seed, workers)); r }
@@ -51,6 +61,8 @@ fn main() {
         "C03" | "C17" => c03::run(&prop, &tier, seed, workers),
         "C14" | "C20" => c14::run(&prop, &tier, seed, workers),
         "C18" => c18::run(&tier, seed, workers),
+        "C11" => c11::run(&tier, seed, workers),
+        "C12" => c12::run(&tier, seed, workers),
         "C09" => codec::run_c09(&tier, seed, workers),
         "C10" => codec::run_c10(&tier, seed, workers),
         "C06" | "C08" | "C13" | "C15" => syncp::run(&prop, &tier, seed, workers),
